@@ -62,6 +62,13 @@ CLAIMED = {
     note="Trusted: abstract interpreter soundness; lib/spec.py transcription of Alg. 14, 15, 35-40; spec breakpoint tables (re-derived by brute force in the thorough tier). MakeHint's two-dimensional domain is covered structurally, not cell by cell.",
     technique="abstract interpretation with exact affine forms + piecewise-affine domain partitioning against the FIPS definitions",
     engine="driver-ai"),
+ "C14": dict(
+    category="proof",
+    text="Taint x value abstract interpretation at MIR level. R1: dudect_keygen_sign_with_rng (CTEST=true, --features dudect, debug assertions and overflow checks off as in the timing harness) with every RNG byte tainted: no SwitchInt/Assert successor, array index, Div/Rem operand or short-circuiting iterator depends on a tainted value that is not provably constant, except the one allow-listed compare-select (Iterator::max in infinity_norm); since control is followed concretely when discriminants are singletons, one abstract path covers every RNG output. R2: the same rule for 21 secret-handling kernels run alone with tainted data over their caller ranges (incl. those dead in test mode). R3: positive control - the normal signing entry point must show its rejection branches.",
+    design_ref="DESIGN.md §4 C14",
+    note="Proof under the stated MIR-level leakage model only: code generation (selects turned into branches), caches and hardware timing are not analysed. Hash permutations trusted data-independent. Allow-list: rules/ct_allow.json (1 entry).",
+    technique="taint + value abstract interpretation over monomorphic MIR with an explicit leakage model",
+    engine="driver-ai"),
 }
 NA_REASON = "check not built yet in this round (static-analysis engine under construction); see DESIGN.md §8 build order"
 
@@ -92,7 +99,7 @@ man = {
  "engines": [
    {"name": "cfg-matrix", "path": "checks/c17.py", "serves_properties": ["C17"], "kind_free_text": "feature-configuration matrix: rustc lints + MIR fingerprints"},
    {"name": "driver-facts", "path": "driver/src/facts.rs", "serves_properties": ["C16", "C17"], "kind_free_text": "type/layout/drop-glue/call-graph facts"},
-   {"name": "driver-ai", "path": "driver/src/ai/", "serves_properties": ["C07", "C10", "C12", "C13", "C15", "C18"], "kind_free_text": "abstract interpreter over monomorphic MIR"},
+   {"name": "driver-ai", "path": "driver/src/ai/", "serves_properties": ["C07", "C10", "C12", "C13", "C14", "C15", "C18"], "kind_free_text": "abstract interpreter over monomorphic MIR"},
    {"name": "driver", "path": "driver/", "serves_properties": sorted(CLAIMED), "kind_free_text": "rustc_private driver over type-checked monomorphic MIR (facts, call graph, abstract interpretation)"},
  ],
  "checks": checks,
